@@ -27,6 +27,10 @@ def nm(v):
 
 
 def run(p, led, tier):
+    from .c10 import _shared_memos
+    from ..resolve import Resolver as _Res
+    _shared_memos(p, led, _Res(p), "C17-R6", FILES, "a retrained or second baseline of the same agent is answered with the verdict of the old one",
+                  "train baseline A, check fingerprint p (violations); retrain on p itself: the new profile still reports the old violations from the shared memo")
     tcell = p.cls("TCell", SV + "tcell.py")
     treg = p.cls("RegulatoryTCell", SV + "treg.py")
     isys = p.cls("ImmuneSystem", SV + "immune_system.py")
